@@ -117,7 +117,7 @@ Definition b_vec (s : stdmodel) := map eq_rhs (sm_cons s).
 (* standard_linear_model.rs:51-72 : usable independent variables (row, column, value) *)
 Definition independent_vars (s : stdmodel) : list (nat * nat * xq) :=
   flat_map (fun column =>
-    let hits := filter (fun p : nat * eqcon => f_ne (nthx (eq_coeffs (snd p)) column) x0)
+    let hits := filter (fun p : nat * eqcon => negb (xq_is_zero (nthx (eq_coeffs (snd p)) column)))   (* exact: `coeff != 0.0` *)
                        (combine (seq 0 (List.length (sm_cons s))) (sm_cons s)) in
     match rev hits with
     | last :: _ =>
